@@ -278,7 +278,8 @@ class Oracle:
 class TreeGen:
     """Trees a compiler could hold: every argument within the meaning of its argf letter.
     Not generated (never built as nodes by the compiler / abort in foamTagFormat): Arb, Rec, TR,
-    CFCall, OFCall; 'b' arguments are (char) values; labels only inside a Prog, below its label count."""
+    CFCall, OFCall; Char data is an unsigned byte, every other 'b' argument a (char) value (FOAM_Byte is only
+    ever built with 0 and 1); labels only inside a Prog, below its label count."""
 
     def __init__(self, rng, info, xsf, xdf):
         self.r, self.info = rng, info
@@ -357,8 +358,9 @@ class TreeGen:
         if c == "D":
             return ("i", r.randrange(0, 12))
         if c == "b":
-            if tag in (self.t["FOAM_Char"], self.t["FOAM_Byte"]) and r.random() < 0.3:
-                return ("i", r.choice([128, 200, 233, 255]))      # e.g. (Char 233) as the folder builds it
+            if tag == self.t["FOAM_Char"]:
+                # a character is an unsigned byte (FiChar); e.g. (Char 233) as the folder builds it
+                return ("i", r.choice([0, 1, 10, 65, 127, 128, 200, 233, 255]) if r.random() < 0.7 else r.randrange(0, 256))
             return ("i", self.pick_int("b"))
         if c == "h":
             return ("i", self.pick_int("h"))
